@@ -63,16 +63,59 @@ func one(class, site, what string) []origin {
 	return []origin{{Classes: map[string]bool{class: true}, Site: site, What: what}}
 }
 
-// merge combines the classes of several operand origin lists into a single
-// wrapping origin (fmt.Errorf %w, errors.Join).
+// mergeWrap builds the origins of a wrapping expression (fmt.Errorf %w,
+// errors.Join). The alternatives of each operand stay apart: wrapping an
+// error that is ErrDown or else a raw transport error gives two origins, one
+// per alternative, and not one origin that is "both". Several operands
+// combine as a cross product (bounded; beyond the bound the classes are
+// pooled, which can only hide an alternative from the per-alternative rules
+// and is reported in the origin's description).
 func mergeWrap(site, what string, parts ...[]origin) []origin {
-	cl := map[string]bool{}
+	alts := []map[string]bool{{}}
+	pooled := false
 	for _, p := range parts {
-		for k := range classes(p) {
-			cl[k] = true
+		if len(p) == 0 {
+			continue
 		}
+		if len(alts)*len(p) > 256 {
+			pooled = true
+			cl := classes(p)
+			for _, a := range alts {
+				for k := range cl {
+					a[k] = true
+				}
+			}
+			continue
+		}
+		var next []map[string]bool
+		for _, a := range alts {
+			for _, o := range p {
+				m := map[string]bool{}
+				for k := range a {
+					m[k] = true
+				}
+				for k := range o.Classes {
+					m[k] = true
+				}
+				next = append(next, m)
+			}
+		}
+		alts = next
 	}
-	return []origin{{Classes: cl, Site: site, What: what}}
+	if pooled {
+		what += " (alternatives pooled)"
+	}
+	seen := map[string]bool{}
+	var out []origin
+	for _, a := range alts {
+		k := classList(a)
+		if seen[k] {
+			continue
+		}
+		seen[k] = true
+		out = append(out, origin{Classes: a, Site: site, What: what})
+	}
+	return out
 }
 
 // variadic returns the elements of a variadic argument built in place.
@@ -438,6 +481,11 @@ func (ef *errFlow) resultOrigins(fn *ssa.Function, idx int) []origin {
 		}
 		e := &p.Events[len(p.Events)-1]
 		if idx >= len(e.Results) || seen[e.Results[idx]] {
+			continue
+		}
+		// (a named result returned by a bare return: on a path that knows the
+		// value to be nil no error leaves through it)
+		if idx == len(e.Results)-1 && retErr(p, len(p.Events)-1) == triNil {
 			continue
 		}
 		seen[e.Results[idx]] = true
